@@ -643,3 +643,88 @@ def run_pool_history(ops):
         return out_emitted, incs, results
     finally:
         events.clear()
+
+
+# ------------------------------------------------------------------ listeners that answer (OK / FAIL), several pools
+
+class AnsweringOptions(FakeOptions):
+    """Adds the read side of the seam: what the listener wrote on its stdout."""
+    def __init__(self, identifier='supervisor'):
+        FakeOptions.__init__(self, identifier)
+        self.pending = {}
+
+    def readfd(self, fd):
+        return self.pending.pop(fd, b'')
+
+
+def run_reject_history(pool_specs, ops):
+    """pool_specs: [(name, [EventTypes names], listener priority)].  Each pool has
+    one real listener Subprocess with a real PInputDispatcher (stdin) and a real
+    PEventListenerDispatcher (stdout).  ops:
+      ('emit', emission of run_routing) | ('dispatch',) |
+      ('answer', pool name, True/False)  - the listener writes RESULT 2\\nOK / RESULT 4\\nFAIL
+      ('ready', pool name)               - the listener writes READY\\n
+    Returns (emitted [(class name, payload, serial)], {pool: bytes on its listener's stdin},
+    {pool: [serials left in event_buffer]})."""
+    from supervisor import rpcinterface
+    events.clear()
+    process.GlobalSerial.serial = -1
+    emitted = []
+    events.subscribe(events.Event, emitted.append)
+    pools = {}
+    try:
+        for name, type_names, prio in pool_specs:
+            opts = AnsweringOptions('supervisor')
+            cfg = FakePoolConfig(opts, name, [getattr(events.EventTypes, t) for t in type_names])
+            cfg.result_handler = dispatchers.default_handler
+            for pc in cfg.process_configs:
+                pc.priority = prio
+                pc.stdout_logfile = None
+            pool = process.EventListenerPool(cfg)
+            for proc in pool.processes.values():
+                proc.state = ProcessStates.RUNNING
+                proc.pid = 4242
+                proc.pipes = {'stdin': 7, 'stdout': 8}
+                proc.dispatchers = {7: dispatchers.PInputDispatcher(proc, 'stdin', 7),
+                                    8: dispatchers.PEventListenerDispatcher(proc, 'stdout', 8)}
+            pools[name] = (pool, opts)
+        subject = make_subprocess('subject', 'grp', ProcessStates.STOPPED, 77, 0, False, 100.0, 1, (0,))
+        sup = supervisord.Supervisor(FakeOptions())
+        iface = rpcinterface.SupervisorNamespaceRPCInterface(sup)
+
+        def say(name, data):
+            pool, opts = pools[name]
+            for proc in pool.processes.values():
+                opts.pending[8] = data
+                proc.dispatchers[8].handle_read_event()
+
+        for op in ops:
+            k = op[0]
+            if k == 'emit':
+                em = op[1]
+                if em[0] == 'state':
+                    with patched_time(200.0):
+                        subject.change_state(em[1], True)
+                elif em[0] == 'tick':
+                    sup.tick(now=em[1])
+                elif em[0] == 'log':
+                    events.notify(events.ProcessLogStdoutEvent(subject, subject.pid, em[2]))
+                elif em[0] == 'remote':
+                    iface.sendRemoteCommEvent(em[1], em[2])
+                else:
+                    raise ValueError(em)
+            elif k == 'dispatch':
+                for name in sorted(pools):
+                    with patched_time(1000.0):
+                        pools[name][0].dispatch()
+            elif k == 'answer':
+                say(op[1], b'RESULT 2\nOK' if op[2] else b'RESULT 4\nFAIL')
+            elif k == 'ready':
+                say(op[1], b'READY\n')
+            else:
+                raise ValueError(op)
+        streams = dict((n, b''.join(d for _, d in o.written)) for n, (p, o) in pools.items())
+        left = dict((n, [getattr(e, 'serial', None) for e in p.event_buffer]) for n, (p, o) in pools.items())
+        return [(type(e).__name__, e.payload(), getattr(e, 'serial', None)) for e in emitted], streams, left
+    finally:
+        events.clear()
